@@ -15,6 +15,7 @@ import KikiVerif.Properties.C08
 import KikiVerif.Properties.C09
 import KikiVerif.Properties.C10
 import KikiVerif.Proofs.NoPanic
+import KikiVerif.Proofs.TermBuild
 import KikiVerif.Proofs.Encode
 
 namespace KikiVerif.C07
@@ -83,6 +84,26 @@ theorem C07_parse_error_no_panic (src : Str) (toks : List Token) (htok : Tokeniz
   | none => exact ⟨_, h3⟩
   | some t => exact ⟨_, h2 t hb⟩
 
+/-- **the generator stages are total, every validated file**: once the grammar is coded, `validated_ast_to_machine`
+*terminates* — the FIRST fixpoint within `nN·(nT+1)` changing passes, every closure within the number of
+well-formed items times the implication bound, the worklist within a potential bounded by `2^C·(U+1)` (at most
+`2^C` states since no two share a core, at most `U` items per state) — and returns a machine; `machine_to_table`
+(structural recursion) then returns a table or a genuine conflict.  `genFuel` is the explicit bound: with any
+fuel from there on the model's loops never run out, i.e. the unbounded Rust loops stop. -/
+theorem C07_generator_total (vf : VFile.File) (enc : Encode.Enc) (he : Encode.encode vf = some enc) (fuel : Nat)
+    (hf : Machine.genFuel enc.ctx ≤ fuel) :
+    ∃ m, Machine.machineOf enc.ctx fuel = some (some m) ∧
+      ((∃ t, Table.machineToTable enc.ctx m = .ok t) ∨
+       (∃ s e n, Table.machineToTable enc.ctx m = .conflict s e n ∧ Table.Genuine enc.ctx m s e n)) := by
+  have ok := Encode.encode_ok he
+  obtain ⟨m, hm⟩ := Machine.machineOf_terminates ok fuel hf
+  refine ⟨m, hm, ?_⟩
+  obtain ⟨fm, _, mok⟩ := Machine.machineOf_ok ok.terms hm
+  cases h : Table.machineToTable enc.ctx m with
+  | ok t => exact Or.inl ⟨t, rfl⟩
+  | conflict s e n => exact Or.inr ⟨s, e, n, rfl, Table.conflict_genuine _ _ s e n h⟩
+  | panic site => exact absurd h (NoPanic.machineToTable_no_panic ok mok site)
+
 end KikiVerif.C07
 
 #print axioms KikiVerif.C07.bracketScan_no_panic
@@ -93,3 +114,4 @@ end KikiVerif.C07
 #print axioms KikiVerif.C07.C07_validate_no_panic
 #print axioms KikiVerif.C07.C07_generator_no_panic
 #print axioms KikiVerif.C07.C07_parse_error_no_panic
+#print axioms KikiVerif.C07.C07_generator_total
